@@ -166,13 +166,15 @@ def match_finding(f, findings):
         props = k.get('properties') or [k.get('property')]
         if f.prop not in props:
             continue
-        if k.get('kind') and k['kind'] != f.kind:
-            continue
-        if k.get('where') and not re.search(k['where'], f.where or ''):
-            continue
-        if k.get('detail') and not re.search(k['detail'], f.detail or ''):
-            continue
-        return k
+        pats = k.get('patterns') or [k]
+        for pt in pats:
+            if pt.get('kind') and pt['kind'] != f.kind:
+                continue
+            if pt.get('where') and not re.search(pt['where'], f.where or ''):
+                continue
+            if pt.get('detail') and not re.search(pt['detail'], f.detail or ''):
+                continue
+            return k
     return None
 
 
@@ -253,7 +255,7 @@ def classify(step):
             return 'twin', m.group(1)[:300]
         if 'pagemodel=differs' in d and 'expected=' not in d:
             return 'reply', 'pagemodel=differs'
-        m = re.search(r'expected=(\S+) observed_code=(\d+)( short-read got=\d+ want=\d+ prefix=1 free=\d+ nospace=\d| data-differs at=\d+| long-read)?', d)
+        m = re.search(r'expected=(\S+) observed_code=(\d+)( short-read got=\d+ want=\d+ prefix=1 free=\d+ nospace=\d| data-differs at=\d+| long-read)?( name=illformed)?', d)
         return 'reply', (m.group(0) if m else d)
     if step['nwf']:
         m = re.search(r'wf=(\S+)', d)
